@@ -5,10 +5,17 @@ class at the granularity the property distinguishes: failed result / ValueError-
 class) with lean/PM/Step.lean, including steps decoded from JSON.
 Search: on every applied step: failed result or ValueError, or a document accepted by `check()`
 AND by the independent spec validator; any other exception class is a violation.
+
+Second stream ("payload well-formedness", `apply_no_internal`): steps whose slices carry perturbed open
+depths / insert offsets and whose positions may lie outside the document.  Tie: `StepWF` / `StepOrdered`
+of lean/PM/StepWF.lean against their re-statement on the real objects (exact), and `apply` (exact) on the
+well-formed, ordered ones.  Oracle: a well-formed, ordered step must not end in an internal error; the
+internal errors met on ill-formed payloads are counted (they show the hypothesis is needed).
 """
 import json
 
-from prosemirror.transform import Step
+from prosemirror.model import Slice
+from prosemirror.transform import AddMarkStep, RemoveMarkStep, ReplaceAroundStep, ReplaceStep, Step
 
 from .. import core, gen, schemas
 from ..core import outcome
@@ -22,6 +29,81 @@ def apply_outcome(step, doc):
             return "failed", res.failed
         return "ok", res.doc
     return st, res
+
+
+def _spine(fragment, left):
+    d, n = 0, (fragment.first_child if left else fragment.last_child)
+    while n is not None and not n.is_leaf and not n.is_text:
+        d += 1
+        n = n.first_child if left else n.last_child
+    return d
+
+
+def slice_wf(sl):
+    """`Slice.wf` of the model: the open depths are available as element spines of the content"""
+    return sl.open_start <= _spine(sl.content, True) and sl.open_end <= _spine(sl.content, False)
+
+
+def step_wf(step):
+    """`StepWF` (lean/PM/StepWF.lean) on the real step"""
+    if isinstance(step, ReplaceAroundStep):
+        return slice_wf(step.slice) and step.insert <= step.slice.size
+    if isinstance(step, ReplaceStep):
+        return slice_wf(step.slice)
+    return True
+
+
+def step_ordered(step):
+    """`StepOrdered`: the region in which the model follows the code"""
+    if isinstance(step, ReplaceAroundStep):
+        return step.from_ <= step.gap_from <= step.gap_to <= step.to
+    if isinstance(step, (ReplaceStep, AddMarkStep, RemoveMarkStep)):
+        return step.from_ <= step.to
+    return True
+
+
+def gen_wf_probe(rng, info, doc, docs):
+    """a step with a possibly ill-formed payload: open depths pushed past the spines, insert offset past the
+    slice, positions possibly outside the document or out of order (never negative)"""
+    size = doc.content.size
+    step = gen.gen_step(rng, info, doc, docs)
+    pos = lambda: rng.randint(0, size + 2) if rng.random() < 0.15 else rng.randint(0, size)  # noqa: E731
+
+    def bend(sl):
+        r = rng.random()
+        if r < 0.35:
+            return sl
+        if r < 0.5:
+            return Slice(sl.content, _spine(sl.content, True), _spine(sl.content, False))
+        return Slice(sl.content, max(0, sl.open_start + rng.choice([-1, 0, 1, 1, 2])),
+                     max(0, sl.open_end + rng.choice([-1, 0, 1, 1, 2])))
+    if isinstance(step, ReplaceAroundStep):
+        sl = bend(step.slice)
+        f, t, gf, gt = step.from_, step.to, step.gap_from, step.gap_to
+        r = rng.random()
+        if r < 0.25:
+            f, gf, gt, t = sorted([pos(), pos(), pos(), pos()])
+        elif r < 0.35:
+            f, t, gf, gt = pos(), pos(), pos(), pos()
+        ins = step.insert if rng.random() < 0.4 else rng.randint(0, max(0, sl.size) + 2)
+        return ReplaceAroundStep(f, t, gf, gt, sl, ins, step.structure)
+    if isinstance(step, ReplaceStep):
+        f, t = step.from_, step.to
+        r = rng.random()
+        if r < 0.2:
+            f, t = sorted([pos(), pos()])
+        elif r < 0.3:
+            f, t = pos(), pos()
+        return ReplaceStep(f, t, bend(step.slice), step.structure)
+    if isinstance(step, (AddMarkStep, RemoveMarkStep)):
+        f, t = step.from_, step.to
+        r = rng.random()
+        if r < 0.3:
+            f, t = sorted([pos(), pos()])
+        elif r < 0.4:
+            f, t = pos(), pos()
+        return type(step)(f, t, step.mark)
+    return step
 
 
 def payload_valid(step, schema):
@@ -49,6 +131,50 @@ def run(ctx):
                 if cls != mcls:
                     ctx.mismatch("apply", replay, st, out if "err" in out else "ok")
         del reqs[:], metas[:]
+
+    wreqs, wmetas = [], []
+
+    def flush_wf():
+        outs = ctx.driver.run(wreqs) if wreqs else []
+        for req, (replay, what, val_), out in zip(wreqs, wmetas, outs):
+            ctx.count("model_requests")
+            if "bad" in out:
+                ctx.mismatch(req["op"], replay, what, out)
+            elif req["op"] == "stepWF":
+                if out.get("ok") != val_:
+                    ctx.mismatch("stepWF", replay, val_, out)
+            elif what == "ok":
+                if out.get("ok") != val_:
+                    ctx.mismatch("apply-wf", replay, "ok", out if "err" in out else {"different": out.get("ok")})
+            else:
+                cls = "rejected" if what in ("failed", "valueError") else what
+                mcls = "rejected" if out.get("err") in ("failed", "valueError") else out.get("err", "ok")
+                if cls != mcls:
+                    ctx.mismatch("apply-wf", replay, what, out if "err" in out else "ok")
+        del wreqs[:], wmetas[:]
+
+    def wf_stream(info, d, docs):
+        for k in range(ctx.budget(8, 30)):
+            step = gen_wf_probe(rng, info, d, docs)
+            kind = type(step).__name__
+            wf, ordered = step_wf(step), step_ordered(step)
+            st, res = apply_outcome(step, d)
+            sj = info.step(step)
+            replay = {"schema": info.name, "doc": d.to_json(), "step": step.to_json(), "stream": "payload-wf",
+                      "open": [getattr(getattr(step, "slice", None), "open_start", None),
+                               getattr(getattr(step, "slice", None), "open_end", None)]}
+            ctx.case(["apply-wf", info.name, d.to_json(), sj], nontrivial=wf and ordered)
+            ctx.count(f"wf:{kind}:{'wf' if wf else 'illformed'}:{'ordered' if ordered else 'unordered'}:{st}")
+            wreqs.append({"op": "stepWF", "step": sj})
+            wmetas.append((replay, "stepWF", {"wf": wf, "ordered": ordered}))
+            if not (wf and ordered):
+                if st == "internal":
+                    ctx.count("wf:excluded_internal:" + ("illformed" if not wf else "unordered"))
+                continue
+            if st in ("internal", "hang"):
+                ctx.violation("internal-error", f"Step.apply of a well-formed step died with an internal error: {res}", replay)
+            wreqs.append({"op": "apply", "s": info.lean_id, "doc": info.node(d), "step": sj})
+            wmetas.append((replay, st, info.node(res) if st == "ok" else None))
 
     fam = schemas.family()
     n_schemas = ctx.budget(14, 70)
@@ -95,7 +221,12 @@ def run(ctx):
                     ctx.violation("internal-error", f"Step.apply died with an internal error: {res}", replay)
                 reqs.append({"op": "apply", "s": info.lean_id, "doc": info.node(d), "step": sj})
                 metas.append((replay, st, info.node(res) if st == "ok" else None))
+            if ctx.time_left() > 0:
+                wf_stream(info, d, docs)
+        if len(wreqs) >= 8000:
+            flush_wf()
     flush()
+    flush_wf()
     return ctx.finish(
         rule="a case is (schema, valid document, step) with the step of a random kind among the eight, positions inside "
              "the document, slices cut from other valid documents (all open depths), wrappers plausible and implausible, "
